@@ -556,8 +556,12 @@ fn handle_out_delete<'a>(
     output_options: &OutputOptions<'a>,
 ) -> Result<i32, MonorailError> {
     let rt = Runtime::new()?;
+    #[cfg(pnordahl_monorail_verif)]
+    crate::verif::point("lock.pre:out_delete");
     let _guard =
         rt.block_on(core::server::LockServer::new(config.server.lock.clone()).acquire())?;
+    #[cfg(pnordahl_monorail_verif)]
+    crate::verif::point("lock.post:out_delete");
     let i = app::out::OutDeleteInput::try_from(matches)?;
     let res = app::out::out_delete(&config.out_dir, &i);
     write_result(&res, output_options)?;
@@ -584,8 +588,12 @@ fn handle_run<'a>(
     work_path: &'a path::Path,
 ) -> Result<i32, MonorailError> {
     let rt = Runtime::new()?;
+    #[cfg(pnordahl_monorail_verif)]
+    crate::verif::point("lock.pre:run");
     let _guard =
         rt.block_on(core::server::LockServer::new(config.server.lock.clone()).acquire())?;
+    #[cfg(pnordahl_monorail_verif)]
+    crate::verif::point("lock.post:run");
     let i = app::run::HandleRunInput::try_from(matches).unwrap();
     let invocation = env::args().skip(1).collect::<Vec<_>>().join(" ");
     let o = rt.block_on(app::run::handle_run(config, &i, &invocation, work_path))?;
@@ -613,8 +621,12 @@ fn handle_checkpoint_update<'a>(
     work_path: &'a path::Path,
 ) -> Result<i32, MonorailError> {
     let rt = Runtime::new()?;
+    #[cfg(pnordahl_monorail_verif)]
+    crate::verif::point("lock.pre:checkpoint_update");
     let _guard =
         rt.block_on(core::server::LockServer::new(config.server.lock.clone()).acquire())?;
+    #[cfg(pnordahl_monorail_verif)]
+    crate::verif::point("lock.post:checkpoint_update");
     let i = app::checkpoint::CheckpointUpdateInput::try_from(matches)?;
     let res = rt.block_on(app::checkpoint::handle_checkpoint_update(
         config, &i, work_path,
@@ -640,8 +652,12 @@ fn handle_checkpoint_delete<'a>(
     work_path: &'a path::Path,
 ) -> Result<i32, MonorailError> {
     let rt = Runtime::new()?;
+    #[cfg(pnordahl_monorail_verif)]
+    crate::verif::point("lock.pre:checkpoint_delete");
     let _guard =
         rt.block_on(core::server::LockServer::new(config.server.lock.clone()).acquire())?;
+    #[cfg(pnordahl_monorail_verif)]
+    crate::verif::point("lock.post:checkpoint_delete");
     let res = rt.block_on(app::checkpoint::handle_checkpoint_delete(config, work_path));
     write_result(&res, output_options)?;
     Ok(get_code(res.is_err()))
